@@ -378,6 +378,24 @@ Example C13_example_run :
       (p_dL p, p_fL p, p_dR p, p_fR p) = (p_dL q, p_fL q, p_dR q, p_fR q) /\ p_dL q <> None).
 Proof. vm_compute. split; [reflexivity|]. split; [reflexivity|discriminate]. Qed.
 
+(* the model, run with cbca: a 6 x 10 pair with given cost curves (3 disparities, d in [-1, 1]), cbca_distance 2 then
+   winner-takes-all; cone 2 rows, 3 columns; the 5 x 7 crop at offset (1, 2) gives at its pixel (2, 3) what the
+   whole gives at (3, 5): aggregated cost curves (means over 9-pixel regions: 25/9, 17/9, 8/3) and disparities of
+   the left and right products *)
+Definition ex3_F : frame pix :=
+  mkFrame 6 10 (fun r c => mkPix ((r * 7 + c * c * 3) mod 11) (((r * 5 + (c + 1) * (c + 1) * 3) mod 11) + r mod 2) 0 0
+     [Some (inject_Z ((r * 3 + c * c) mod 7)); Some (inject_Z ((r + 2 * c) mod 5)); Some (inject_Z ((r * r + c) mod 6))]
+     [Some (inject_Z ((r + c * c) mod 5)); Some (inject_Z ((r + 3 * c) mod 7)); Some (inject_Z ((r * r + 2 * c) mod 6))]
+     None None 0 0).
+Definition ex3_steps : list step := [SCbca 2 (4 # 1); SWta false None].
+Example C13_example_run_cbca :
+  pipe_rad ex2_cfg ex3_steps = (mkRad 2 3 3, mkRad 2 3 3)
+  /\ (let p := run_pipe (map (step_op ex2_env) ex3_steps) (crop ex3_F 1 2 5 7) 2 3 in
+      let q := run_pipe (map (step_op ex2_env) ex3_steps) ex3_F 3 5 in
+      (p_cvL p, p_cvR p, p_dL p, p_dR p) = (p_cvL q, p_cvR q, p_dL q, p_dR q)
+      /\ p_cvL q = [Some (25 # 9); Some (17 # 9); Some (8 # 3)]%Q /\ p_dL q = Some 0%Q /\ p_dR q = Some 1%Q).
+Proof. vm_compute. split; [reflexivity|]. repeat split; reflexivity. Qed.
+
 Print Assumptions C13_local_compose.
 Print Assumptions C13_local_pointwise.
 Print Assumptions C13_chain_local.
